@@ -347,6 +347,31 @@ fn cli_pass(text: &str, whole: &Balances, queries: &mut u64) -> Option<Outcome> 
             }
         }
     }
+    // every spelling of a bound that `okane balance --help` shows (`--start` and its visible alias `--begin`, `--end`), one
+    // bound at a time: the same report as the library gives for that half-open range
+    for b in &some_bounds {
+        let bs = day(*b).format("%Y-%m-%d").to_string();
+        for (flag, is_start) in [("--start", true), ("--begin", true), ("--end", false)] {
+            *queries += 1;
+            let out = match run_cli(&["okane", "balance", flag, &bs, &p]) {
+                Ok(o) => o,
+                Err(er) => return Some(Outcome::violation(format!("cli-range-balance-failed/{}", flag), format!("{} {}: {}", flag, bs, er))),
+            };
+            let mut cli_bal = Balances::new();
+            for line in out.lines() {
+                let (acc, amt) = line.rsplit_once(": ")?;
+                cli_bal.insert(acc.to_string(), super::bk::parse_inline_amount(amt)?);
+            }
+            let api: Balances = oka::with_ledger(&[(oka::ROOT, text)], oka::ROOT, None, |r| {
+                let (l, c) = r.expect("accepted by construction");
+                let dr = if is_start { DateRange { start: Some(day(*b)), end: None } } else { DateRange { start: None, end: Some(day(*b)) } };
+                oka::balance_to_map(&l.balance(c, &BalanceQuery { conversion: None, date_range: dr }).expect("range balance"))
+            });
+            if oka::clean_balances(&cli_bal) != oka::clean_balances(&api) {
+                return Some(Outcome::violation(format!("cli-one-bound-balance-differs-from-library/{}", flag), format!("okane balance {} {}\ncli:\n{}\nlibrary: {:?}", flag, bs, out, oka::clean_balances(&api))));
+            }
+        }
+    }
     for acc in ["P", "p", "Q", "R"] {
         *queries += 1;
         let reg = match run_cli(&["okane", "register", &p, acc]) {
